@@ -97,16 +97,18 @@ class SubstituteInterpret(Contract):
     """SubstituteInterpretation.interpret(cls, *args): builds cls(*args) under the base interpretation (entered and left
     exactly once) and substitutes -- simultaneously -- exactly those pairs of self.subs whose key is introduced by the node
     being rebuilt (self.fresh) and is an input of the result; keys that merely occur in the result because an already
-    substituted argument brought them along are NOT substituted again (the double-substitution defect), and a key of the
-    original node is not lost when the rebuilt term no longer lists it as fresh (the lost-substitution defect)."""
+    substituted argument brought them along are NOT substituted again (the double-substitution defect, repaired).
+    The clause is split by the known finding C10/lost-substitution-into-rebuilt-term: a key of the original node is lost
+    when the rebuilt term no longer lists it as fresh (a lazy MarkovProduct / Stack / Cat whose rebuilt form evaluates to a
+    compound term)."""
 
     props = ("C04", "C05")
     file = "funsor/terms.py"
     qualname = "SubstituteInterpretation.interpret"
     total = True
     mutants = (
-        ("every fresh name of the rebuilt term substituted (pre-fix behaviour)", "if k in self.fresh and k in expr.inputs", "if k in expr.fresh"),
-        ("names the rebuilt term does not list as fresh are dropped", "                expr = Subs(expr, fresh_subs)", "                pass"),
+        ("every fresh name of the rebuilt term substituted (pre-fix behaviour)", "if k in self.fresh and k in expr.fresh", "if k in expr.fresh"),
+        ("substituted one pair at a time", "                expr = instrument.debug_logged(expr.eager_subs)(fresh_subs)", "                for pair in fresh_subs:\n                    expr = expr.eager_subs((pair,))"),
     )
 
     def structures(self, tier):
@@ -159,7 +161,9 @@ class SubstituteInterpret(Contract):
     def ensures(self, ctx, result):
         keys, vals, own, built, fresh_mode = ctx.st
         m = {k: v.den for k, v in ctx.subs if k in own and k in built}
-        return [("built_once_inside_the_base_interpretation", ctx.log == ["enter", "build", "exit"]), ("exactly_the_nodes_own_names_substituted_once", isinstance(result, Term) and result.den == dsubst(ctx.rebuilt.den, m))]
+        lost = any(k in own and k in built and k not in ctx.rebuilt.fresh for k, v in ctx.subs)
+        tag = "[rebuilt term no longer lists the name as fresh]" if lost else ""
+        return [("built_once_inside_the_base_interpretation", ctx.log == ["enter", "build", "exit"]), ("exactly_the_nodes_own_names_substituted_once" + tag, isinstance(result, Term) and result.den == dsubst(ctx.rebuilt.den, m))]
 
 
 # ---- substitute ------------------------------------------------------------------------------------------------------
@@ -181,8 +185,9 @@ class Substitute(Contract):
     mention a key are returned as they are, and a term that mentions no key is returned itself.
     Callees by contract: interpreter.anf (contract Anf: every node once, children first), SubstituteInterpretation.interpret
     (contract SubstituteInterpret, with an adversarial choice of the rebuilt term's .fresh).
-    The clause is split by the known finding C04/fresh-name-captures-value-input: when a value substituted into a child
-    mentions a name that the parent node introduces and that is itself a key, rebuilding the parent identifies the two."""
+    The clause is split by two known findings: C04/fresh-name-captures-value-input (a value substituted into a child mentions
+    a name that the parent node introduces and that is itself a key: rebuilding the parent identifies the two) and
+    C10/lost-substitution-into-rebuilt-term (the callee drops a key when the rebuilt term lists no fresh names)."""
 
     props = ("C04", "C05")
     file = "funsor/terms.py"
@@ -276,10 +281,10 @@ class Substitute(Contract):
             def interpret(self_, node, args):
                 fresh_part = ("app", "fresh") + tuple(var(n) for n in sorted(node.fresh))
                 d = ("app", node.label, fresh_part) + tuple(a.den for a in args) if node._ast_values else node.den
-                m = {k: v.den for k, v in self_.subs if k in self_.fresh and k in dfree(d)}
+                rebuilt_fresh = dfree(d) if fresh_mode == "all" else (set(node.fresh) if fresh_mode == "lazy" else set())
+                m = {k: v.den for k, v in self_.subs if k in self_.fresh and k in rebuilt_fresh}
                 d2 = dsubst(d, m)
-                own = set(node.fresh) - set(m)
-                return Term(d2, dfree(d2) if fresh_mode == "all" else (own if fresh_mode == "lazy" else ()), node.label, tuple(args))
+                return Term(d2, dfree(d2) if fresh_mode == "all" else ((set(node.fresh) - set(m)) if fresh_mode == "lazy" else ()), node.label, tuple(args))
 
         def stype(v):
             if isinstance(v, Term):
@@ -298,6 +303,8 @@ class Substitute(Contract):
         t, keys, vals, fresh_mode = ctx.st
         m = {k: v.den for k, v in ctx.subs}
         tag = "[value mentions a key that the parent node introduces]" if self.captures(ctx.st) else ""
+        if fresh_mode == "none" and any(k in ctx.expr.inputs for k in m):
+            tag += "[rebuilt term no longer lists the name as fresh]"
         touched = any(k in ctx.expr.inputs for k in m)
         cl = [("simultaneous_substitution_where_each_name_is_introduced" + tag, isinstance(result, Term) and result.den == spec(ctx.expr, m)), ("interpretation_stack_restored", ctx.state["depth"] == 0)]
         if not touched:
